@@ -33,6 +33,8 @@ mod incoming;
 mod recv_stream;
 mod send_stream;
 mod socket;
+#[cfg(compio_verif)]
+pub mod verif;
 
 #[cfg(rustls)]
 pub use builder::{ClientBuilder, ServerBuilder};
